@@ -45,7 +45,19 @@ func genC18(t *rapid.T) C18Case {
 	np := rapid.IntRange(2, 6).Draw(t, "npool")
 	for i := 0; i < np; i++ {
 		var s h.Spec
-		switch rapid.IntRange(0, 5).Draw(t, "size") {
+		switch rapid.IntRange(0, 7).Draw(t, "size") {
+		case 6:
+			// shared zeros and infinities: the special-value branches read (and must only read) the other operand
+			s = h.GenSpecial(t, "special", rapid.SampledFrom([]string{"z", "z", "i"}).Draw(t, "sp"))
+			s.Hist = ""
+			c.Pool = append(c.Pool, s)
+			continue
+		case 7:
+			// short values below one: 'f' formatting at or above the leading digit, quotients with long expansions
+			s = h.Spec{F: "f", D: h.GenDigitsN(t, "tiny", rapid.IntRange(1, 6).Draw(t, "tinyn")), E: int64(-rapid.IntRange(0, 8).Draw(t, "tinye")), Neg: rapid.Bool().Draw(t, "tinyneg"), M: h.GenMode(t, "m")}
+			s.P = uint(len(s.D)) + uint(rapid.IntRange(0, 40).Draw(t, "p"))
+			c.Pool = append(c.Pool, s)
+			continue
 		case 0:
 			s = h.GenFinite(t, "small", 60)
 		case 1:
@@ -109,6 +121,9 @@ func runConcProg(pool []*decimal.Decimal, prog []ConcOp) (res []string) {
 				res = append(res, fmt.Sprint(a(0).Cmp(a(1)), a(1).Cmp(a(0))))
 			case "text":
 				res = append(res, a(0).Text('e', int(op.P%40)), a(0).Text('g', -1))
+				if mp := a(0).MinPrec(); mp < 200 {
+					res = append(res, a(0).Text('f', int(op.P%5)), fmt.Sprintf("%.1f|%8.3f", a(0), a(1)))
+				}
 			case "format":
 				res = append(res, fmt.Sprintf("%.20e|%v|%+.3f", a(0), a(1), a(0)))
 			case "float64":
@@ -206,7 +221,7 @@ func checkC18(c C18Case, o *h.Obs) *h.Fail {
 	return nil
 }
 
-const ruleC18 = "rapid-generated workloads under the race detector (GORACE=halt_on_error=1), run with two race builds - the default one and one with -tags decimal_pure_go, because the detector does not see memory accesses made by the amd64 assembly kernels -: a pool of 2-6 shared operands (small; straddling the Karatsuba threshold of 30 words; straddling the recursive-division threshold of 100 words; up to 4000 (quick) / 8000 (thorough) digits; clean, large-capacity and acc != Exact histories) and 2-8 goroutines each running 1-8 operations (Add, Sub, Mul, Mul(x,x), Quo, FMA, Sqrt, Set, Cmp, Text, Format, Float64, Int, GobEncode, MarshalText, runtime.GC to empty the scratch-buffer pool, Gosched) into receivers of their own; GOMAXPROCS drawn from {1,2,4,16}. Oracle: no race report; every concurrent result equals the result of the same program run sequentially beforehand; every shared operand is bit-identical afterwards. Non-trivial = at least two goroutines sharing an operand of >= 30 words with at least one operation that uses pooled scratch space. The race detector flags conflicting unsynchronised accesses that occur in a run largely independent of timing; interleaving-only failures without a race are outside what this search can show (no schedule enumeration)."
+const ruleC18 = "rapid-generated workloads under the race detector (GORACE=halt_on_error=1), run with two race builds - the default one and one with -tags decimal_pure_go, because the detector does not see memory accesses made by the amd64 assembly kernels -: a pool of 2-6 shared operands (zeros and infinities; short values below one; small; straddling the Karatsuba threshold of 30 words; straddling the recursive-division threshold of 100 words; up to 4000 (quick) / 8000 (thorough) digits; clean, large-capacity and acc != Exact histories) and 2-8 goroutines each running 1-8 operations (Add, Sub, Mul, Mul(x,x), Quo, FMA, Sqrt, Set, Cmp, Text, Format, Float64, Int, GobEncode, MarshalText, runtime.GC to empty the scratch-buffer pool, Gosched) into receivers of their own; GOMAXPROCS drawn from {1,2,4,16}. Oracle: no race report; every concurrent result equals the result of the same program run sequentially beforehand; every shared operand is bit-identical afterwards. Non-trivial = at least two goroutines sharing an operand of >= 30 words with at least one operation that uses pooled scratch space. The race detector flags conflicting unsynchronised accesses that occur in a run largely independent of timing; interleaving-only failures without a race are outside what this search can show (no schedule enumeration)."
 
 var propC18 = &h.Prop[C18Case]{ID: "C18", Rule: ruleC18, Gen: genC18, Check: checkC18, Matchers: map[string]func(C18Case) bool{}}
 
